@@ -533,3 +533,37 @@ def scaling_table(ctx, rule, sizes=(6, 12, 24)):
                        f'compiling inputs of the family "{what}" (smallest: {sample[:60]!r}) at sizes {list(sizes)} takes {work} steps '
                        f'(None = the step budget ran out), growth per doubling {ratios}: super-polynomial work - a short pattern can keep '
                        f'compile() busy for an unbounded time')
+
+
+
+def custom_cycle_table(ctx, rule):
+    """Custom selector maps with cycles, self references, undefined names, repeated and layered references: a definition that
+    (transitively) needs itself is refused with SelectorSyntaxError - not RecursionError -, an undefined name likewise, and a name
+    that is referenced several times in one pattern is still defined at the second reference."""
+    cases = [
+        ('cycle of two', ':--a', {':--a': ':--b', ':--b': ':--a'}, 'SelectorSyntaxError'),
+        ('self reference', ':--a', {':--a': 'p:--a'}, 'SelectorSyntaxError'),
+        ('cycle of three behind :is()', 'x:--a', {':--a': ':is(:--b)', ':--b': ':not(:--c)', ':--c': 'q, :--a'}, 'SelectorSyntaxError'),
+        ('cycle not on the path of the pattern', 'p', {':--a': ':--b', ':--b': ':--a'}, None),
+        ('undefined name', ':--nope', {':--a': 'p'}, 'SelectorSyntaxError'),
+        ('undefined name inside a definition', ':--a', {':--a': ':--nope'}, 'SelectorSyntaxError'),
+        ('same name twice in one pattern', ':--a, :--a', {':--a': 'p'}, None),
+        ('same name twice, nested', ':--a:not(:--a > :--a)', {':--a': 'p.x'}, None),
+        ('diamond', ':--a', {':--a': ':--b, :--c', ':--b': ':--d', ':--c': ':--d', ':--d': 'p'}, None),
+        ('a definition used directly and through another', ':--b, :--a', {':--a': ':--b', ':--b': 'p'}, None),
+        ('upper-case reference', ':--A', {':--a': 'p'}, None),
+    ]
+    bad = None
+    for what, text, custom, want in cases:
+        got = compile_text(ctx, text, custom=custom, cache=False)
+        rule.instance({'case': what, 'pattern': text, 'custom': custom, 'outcome': got.raises or 'compiles', 'expected': want or 'compiles'}, key=f'custom-cycle|{what}')
+        if (got.raises or None) != want and bad is None:
+            bad = (what, text, custom, got, want)
+    rule.obligation(bad is None)
+    if bad is not None:
+        what, text, custom, got, want = bad
+        rule.violation(f'custom selectors: {what}', 'soupsieve/css_parser.py (parse_pseudo_class_custom)',
+                       f'compiling {text!r} with custom={custom!r} ({what}) {"raises " + got.raises if got.raises else "compiles"}'
+                       + (f' ({got.message})' if got.message else '') + f'; expected: {want or "compiles"}. A definition that needs itself must be '
+                       f'refused with SelectorSyntaxError (a nested parser that still sees the name recurses until RecursionError), and a name '
+                       f'must stay defined after it was expanded')
